@@ -119,6 +119,7 @@ func cmdStress(args []string) {
 			"tags":       stressOmap(rep, "Tags", newTagsInst, *n, per, *seed+1),
 			"directives": stressOmap(rep, "Directives", newDirectivesInst, *n, per, *seed+2),
 			"stringset":  stressSet(rep, *n, per, *seed+3),
+			"rules":      stressRules(rep, *n, per/2, *seed+4),
 		}
 	}
 	var files []fixture
@@ -726,4 +727,55 @@ func stressShared(rep *stressReport, files []fixture, n int, dur time.Duration, 
 		wg.Wait()
 	}
 	return map[string]any{"reads": reads, "documents": len(bySize)}
+}
+
+
+// stressRules: n goroutines write their own keys into ONE rules builder (Set) and append anonymous rules in between;
+// afterwards every key must resolve to the rule that was stored under it, each exactly once.
+func stressRules(rep *stressReport, n int, dur time.Duration, seed int64) map[string]any {
+	rounds, calls := 0, 0
+	deadline := time.Now().Add(dur)
+	for rounds == 0 || time.Now().Before(deadline) {
+		rounds++
+		b := catalog.VerifNewRulesBuilder(4)
+		const perG = 40
+		var wg sync.WaitGroup
+		for g := 0; g < n; g++ {
+			g := g
+			wg.Add(1)
+			go func() {
+				defer wg.Done()
+				for i := 0; i < perG; i++ {
+					k := fmt.Sprintf("k%d_%d", g, i)
+					b.Set(k, catalog.Rule{ScalarValue: k})
+					if i%3 == 0 {
+						b.Append(catalog.Rule{Key: "", ScalarValue: "anon"})
+					}
+				}
+			}()
+		}
+		wg.Wait()
+		calls += n * perG
+		rr := b.Rules()
+		bad := ""
+		for g := 0; g < n && bad == ""; g++ {
+			for i := 0; i < perG; i++ {
+				k := fmt.Sprintf("k%d_%d", g, i)
+				r, ok := rr.Get(k)
+				if !ok {
+					bad = "the key " + k + " is lost"
+					break
+				}
+				if r.Key != k || r.ScalarValue != k {
+					bad = fmt.Sprintf("Get(%q) returns the rule stored as %q (value %q)", k, r.Key, r.ScalarValue)
+					break
+				}
+			}
+		}
+		if bad != "" {
+			rep.violate("collections", "RulesBuilder under "+fmt.Sprint(n)+" concurrent writers: "+bad, "rules")
+			break
+		}
+	}
+	return map[string]any{"rounds": rounds, "calls": calls}
 }
